@@ -54,11 +54,16 @@ var c07MaskPaths = [][]string{{"cert"}, {"digest"}, {"timestamp"}, {"sev_snp.mea
 	{"sev_snp.measurements[4294967295]"}, {"sev_snp.measurements[1]", "sev_snp.policy"}, {"tdx.measurements"}, {"tdx.measurements[0]"}, {"tdx.measurements[0].mrtd", "tdx.measurements[7].ram_gib"},
 	{"ca_bundle"}, {"sev_snp.svsm_measurement"}, {"digest", "digest"}, {"timestamp.seconds"}, {"no_such_field"}, {"sev_snp.measurements[x]"}, {""}}
 
-// c07PickMask draws the paths of one `inspect mask` request: half of the time one of the paths that
-// print a whole map or message (where everything a sender put into it is walked), else any.
+// c07PickMask draws the paths of one `inspect mask` request: a third of the time one of the paths that
+// print a whole map or message (where everything a sender put into it is walked), a third one of the
+// fields that have a renderer of their own, else any.
 func c07PickMask(r *core.Run) []string {
-	if r.Bool("broad-mask") {
+	switch r.Intn(3, "mask-kind") {
+	case 0:
 		return [][]string{{"sev_snp.measurements"}, {"sev_snp"}, {"tdx"}, {"tdx.measurements"}}[r.Intn(4, "broad-mask-path")]
+	case 1:
+		// fields with a renderer of their own
+		return [][]string{{"timestamp"}, {"timestamp", "digest"}, {"cert"}, {"ca_bundle"}}[r.Intn(4, "rendered-mask-path")]
 	}
 	return c07MaskPaths[r.Intn(len(c07MaskPaths), "mask")]
 }
